@@ -32,6 +32,11 @@ truncates toward zero".
      integer bases truncate in Fortran); and a fold that discards the exponent
      requires the exponent to be a literal, except for base 1 (x**k depends on k
      for every other x: 0**0 = 1).
+ R7  the work-list rewrites treat every term on its own: inside
+     ``while queue: item = queue.pop(0)`` an expression constructor takes its
+     operands from the current item and loop-invariant data; a variable that the
+     loop re-assigns from itself (a "running" denominator) makes the result of one
+     term depend on the terms processed before it.
 Not decided: every other rewrite (literal folding, coefficient collection) --
 value-level, not structural.
 """
@@ -136,6 +141,51 @@ def run(ctx):
 
     _logic_rules(ctx, S)
     arithmetic_shape_rules(ctx, 'R4', 'R5', 'R6')
+    loop_carried_operands(ctx, 'R7')
+
+
+def loop_carried_operands(ctx, rid):
+    """work-list rewrites treat every term independently: no loop-carried scalar flows into a constructed term"""
+    m = ctx.model
+    mod = m.module_by_path(FILE)
+    ctx.rule(rid, 'work-list loops of the rewrites (while <list>: item = <list>.pop(..)): an expression constructor inside the loop takes its '
+                  'operands from the current item and loop-invariant data only -- no variable that is re-assigned from itself in the loop')
+    n = 0
+    for f in mod.functions.values():
+        for w in [x for x in ast.walk(f.node) if isinstance(x, ast.While) and isinstance(x.test, ast.Name)]:
+            wl = w.test.id
+            pops = [a for a in ast.walk(w) if isinstance(a, ast.Assign) and isinstance(a.value, ast.Call) and isinstance(a.value.func, ast.Attribute)
+                    and a.value.func.attr == 'pop' and ast.unparse(a.value.func.value) == wl]
+            if not pops:
+                continue
+            n += 1
+            item = pops[0].targets[0].id if isinstance(pops[0].targets[0], ast.Name) else None
+            # loop-carried scalars: re-assigned inside the loop from an expression that reads the same name, and not a list that only collects
+            carried = {}
+            for a in ast.walk(w):
+                if isinstance(a, ast.Assign) and len(a.targets) == 1 and isinstance(a.targets[0], ast.Name):
+                    t = a.targets[0].id
+                    if t in (wl, item):
+                        continue
+                    if any(isinstance(x, ast.Name) and x.id == t for x in ast.walk(a.value)) and not isinstance(a.value, (ast.List, ast.ListComp)) \
+                            and not (isinstance(a.value, ast.BinOp) and isinstance(a.value.op, ast.Add) and any(isinstance(s_, ast.List) for s_ in (a.value.left, a.value.right))):
+                        carried[t] = a
+            bad = []
+            for c in ast.walk(w):
+                if isinstance(c, ast.Call) and (X.dotted_attr(c.func) or getattr(c.func, 'id', '') or '').split('.')[-1] in ('Quotient', 'Product', 'Sum', 'Power'):
+                    used = {x.id for x in ast.walk(c) if isinstance(x, ast.Name)} & set(carried)
+                    if used:
+                        bad.append((c, sorted(used)))
+            inst = f'{f.name}:work-list over {wl}'
+            if bad:
+                c, used = bad[0]
+                ctx.violation(rid, f'{f.name}:loop-carried-operand', f'{mod.relpath}:{c.lineno}',
+                              f'`{ast.unparse(c)[:80]}` inside the work-list loop uses `{used[0]}`, which the loop re-assigns from itself '
+                              f'(`{ast.unparse(carried[used[0]])[:70]}`): what one term contributed leaks into the terms processed after it, e.g. '
+                              f'(a/b + c)/d becomes a/(b*d) + c/(b*d) instead of a/(b*d) + c/d', instance=inst)
+            else:
+                ctx.judge(rid, inst, facts={'carried': sorted(carried)})
+    ctx.floor(rid, 'work-list loops', n, 1)
 
 
 def arithmetic_shape_rules(ctx, r_multiset, r_parity, r_power):
@@ -354,6 +404,12 @@ def _logic_rules(ctx, S):
 
 
 MUTANTS = [
+    Mutant('merged-denominator-leaks', FILE, "    queue = [expr.numerator]\n    done = []\n",
+           "    queue = [expr.numerator]\n    denominator = expr.denominator\n    done = []\n",
+           also=[(FILE, "            done += [distribute_quotient(sym.Quotient(item.numerator, item.denominator * expr.denominator))]",
+                  "            denominator = item.denominator * denominator\n            done += [distribute_quotient(sym.Quotient(item.numerator, denominator))]"),
+                 (FILE, "            done += [sym.Quotient(item, expr.denominator)]", "            done += [sym.Quotient(item, denominator)]")],
+           expect=('R7', 'loop-carried-operand')),
     Mutant('power-fold-any-exponent', FILE, "                if isinstance(base, literal_types) and exponent_value > 0 and float(exponent_value).is_integer():",
            "                if isinstance(base, literal_types) and float(exponent_value).is_integer():", expect=('R6', 'negative-exponent-fold')),
     Mutant('denominators-deduplicated', FILE, "            denominator += [item.denominator]\n", "            if item.denominator not in denominator:\n                denominator += [item.denominator]\n",
